@@ -86,13 +86,13 @@ carquet_status_t carquet_delta_strings_decode(
     size_t work_buffer_size,
     size_t* bytes_consumed) {
 
-    if (!data || !values || num_values <= 0) {
+    if (!data || !values || num_values < 0) {
         return CARQUET_ERROR_INVALID_ARGUMENT;
     }
 
     /* Allocate arrays for prefix and suffix lengths */
-    int32_t* prefix_lengths = malloc(num_values * sizeof(int32_t));
-    int32_t* suffix_lengths = malloc(num_values * sizeof(int32_t));
+    int32_t* prefix_lengths = malloc((num_values ? (size_t)num_values : 1) * sizeof(int32_t));
+    int32_t* suffix_lengths = malloc((num_values ? (size_t)num_values : 1) * sizeof(int32_t));
 
     if (!prefix_lengths || !suffix_lengths) {
         free(prefix_lengths);
@@ -216,13 +216,13 @@ carquet_status_t carquet_delta_strings_encode(
     int32_t num_values,
     carquet_buffer_t* output) {
 
-    if (!values || !output || num_values <= 0) {
+    if (!values || !output || num_values < 0) {
         return CARQUET_ERROR_INVALID_ARGUMENT;
     }
 
     /* Allocate arrays for prefix and suffix lengths */
-    int32_t* prefix_lengths = malloc(num_values * sizeof(int32_t));
-    int32_t* suffix_lengths = malloc(num_values * sizeof(int32_t));
+    int32_t* prefix_lengths = malloc((num_values ? (size_t)num_values : 1) * sizeof(int32_t));
+    int32_t* suffix_lengths = malloc((num_values ? (size_t)num_values : 1) * sizeof(int32_t));
 
     if (!prefix_lengths || !suffix_lengths) {
         free(prefix_lengths);
